@@ -137,8 +137,12 @@ type Op struct {
 	// Resolved: the descriptor passed to Tag is the one Resolve(<digest>)
 	// returns (for plain blobs: media type application/octet-stream, not the
 	// pushed one) — a legal and natural way to obtain a descriptor
-	Resolved bool   `json:"resolved,omitempty"`
-	Err      string `json:"err,omitempty"` // outcome class, filled by the executor
+	Resolved bool `json:"resolved,omitempty"`
+	// Octet: the descriptor passed to Tag is hand-made with the generic media
+	// type (what content.NewDescriptorFromBytes("", bytes) yields): used for
+	// manifests, whose Resolve(<digest>) answer carries the manifest type
+	Octet bool   `json:"octet,omitempty"`
+	Err   string `json:"err,omitempty"` // outcome class, filled by the executor
 }
 
 func (o Op) String() string {
@@ -149,6 +153,9 @@ func (o Op) String() string {
 		x := ""
 		if o.Resolved {
 			x += ",via-resolve"
+		}
+		if o.Octet {
+			x += ",as-octet-stream"
 		}
 		if len(o.Ann) > 0 {
 			x += ",+ann"
@@ -198,6 +205,9 @@ func Apply(ctx context.Context, s *oci.Store, nodes []Node, op Op) error {
 				return err
 			}
 			d = r
+		}
+		if op.Octet {
+			d.MediaType = "application/octet-stream"
 		}
 		if len(op.Ann) > 0 {
 			d.Annotations = map[string]string{}
@@ -266,6 +276,11 @@ type OpGen struct {
 	Weights    map[string]int
 	AllowBadOp bool // occasionally aim an operation at something absent
 	NoResolved bool // never tag through Resolve(<digest>)
+	NoOctet    bool // never tag a manifest through a hand-made octet-stream descriptor
+	// Pinned reference names are never untagged or moved: a manifest that also
+	// carries an octet-stream tag keeps one name recorded under its manifest type
+	Pinned  map[string]bool
+	pending *Op // operation to emit next
 }
 
 // NewOpGen prepares a generator with k reference names.
@@ -371,7 +386,21 @@ func (g *OpGen) viaResolve(rng *rand.Rand, op *Op) {
 // Next draws the next operation.
 func (g *OpGen) Next(ctx context.Context, rng *rand.Rand, s *oci.Store) Op {
 	have, missing := g.present(ctx, s)
-	used, free := g.tagged(ctx, s)
+	usedAll, free := g.tagged(ctx, s)
+	var used []string // names that may be untagged or moved
+	for _, r := range usedAll {
+		if !g.Pinned[r] {
+			used = append(used, r)
+		}
+	}
+	if g.pending != nil {
+		op := *g.pending
+		g.pending = nil
+		if ok, err := s.Exists(ctx, g.Nodes[op.Node].Desc); err == nil && ok && len(free) > 0 {
+			op.Ref = free[0]
+			return op
+		}
+	}
 	for try := 0; try < 50; try++ {
 		total := 0
 		kinds := []string{"push", "tag", "retag", "untag", "delete", "gc", "saveindex", "pushbad"}
@@ -423,6 +452,23 @@ func (g *OpGen) Next(ctx context.Context, rng *rand.Rand, s *oci.Store) Op {
 			op := Op{Kind: "tag", Node: id, Ref: ref, Ann: g.ann(rng)}
 			g.extras(rng, &op, false)
 			g.viaResolve(rng, &op)
+			if g.Nodes[id].Manifest && !g.NoOctet && ref != g.Nodes[id].Desc.Digest.String() && rng.IntN(4) == 0 {
+				// a generic (octet-stream) descriptor on a manifest: only when the manifest
+				// keeps a name recorded under its manifest type, which is pinned from now on
+				for _, r := range usedAll {
+					if cur, err := s.Resolve(ctx, r); err == nil && cur.Digest == g.Nodes[id].Desc.Digest && cur.MediaType == g.Nodes[id].Desc.MediaType {
+						if g.Pinned == nil {
+							g.Pinned = map[string]bool{}
+						}
+						g.Pinned[r] = true
+						op.Octet, op.Resolved = true, false
+						if rng.IntN(2) == 0 { // then a typed tag again: the typed entry becomes the by-digest one
+							g.pending = &Op{Kind: "tag", Node: id}
+						}
+						break
+					}
+				}
+			}
 			return op
 		case "retag":
 			if len(have) == 0 || len(used) == 0 {
